@@ -62,8 +62,8 @@ claim("C13",
   "post-handshake events only: the handshake readers and the chunking differential (commitRead) are not covered by this harness (the reader bookkeeping is C18); queue empty; goroutines started by handlers are not run; recover() is modelled as 'no panic to recover': every panic is a violation",
   "DESIGN.md 15.3/C13")
 claim("C18",
-  "Real connEventHandler.write/writev/doWritev against a kernel model that accepts any prefix, answers EAGAIN or fails per call (pattern = shape): bytes reach the socket exactly once, in order; real onReadReady/maybeExpandReadBuffer/commitRead with chunked kernel reads and partial consumption: the callback always sees exactly the unconsumed bytes followed by the new ones, offsets stay inside the buffer, growth preserves content.",
-  "small buffers and messages (shape bounds); the 1 MiB data threshold and the 4 MiB shrink path are not reached; concurrent senders (writer exclusion through Session.writing) are NOT covered",
+  "Real connEventHandler.write/writev/doWritev against a kernel model that accepts any prefix, answers EAGAIN or fails per call (pattern = shape): bytes reach the socket exactly once, in order; real onReadReady/maybeExpandReadBuffer/commitRead with chunked kernel reads and partial consumption: the callback always sees exactly the unconsumed bytes followed by the new ones, offsets stay inside the buffer, growth preserves content. Two senders (H_C18_senders): the fast path of wakeUpPeer is stopped in front of every synchronisation operation - also in the middle of its event after a partial kernel write - while the real send loop handles a queued event, with a stale continue token present: every event is written exactly once and none into the middle of another.",
+  "small buffers and messages (shape bounds); the 1 MiB data threshold and the 4 MiB shrink path are not reached; writer exclusion through Session.writing is covered for ONE preemption of the fast-path writer by the send loop (sync-point hook), not for arbitrary schedules of several senders",
   "DESIGN.md 15.3/C18")
 claim("C19",
   "streamWrapper over the session model: Write delivers all of p or fails, Read returns 1..len(p) bytes in order (0 for empty p), Close is idempotent and releases exactly one reference (WaitGroup never negative); Stream.Read contract for all slice layouts (C06 reader harness); every stream surfaces once through AcceptStream in sequential histories - with one KNOWN FINDING (late data for a stream the server already closed re-creates it).",
